@@ -608,7 +608,7 @@ class Fn:
             st.extend(d.get(x, ()))
         return seen
 
-    PASS_THROUGH = ("clone", "value", "into", "from", "deref", "deref_mut", "as_ref", "borrow", "to_owned", "unwrap", "expect", "copied", "cloned")
+    PASS_THROUGH = ("clone", "value", "into", "from", "deref", "deref_mut", "as_ref", "borrow", "to_owned", "unwrap", "expect", "copied", "cloned", "branch")
 
     def nearest_calls(self, local, depth=12):
         """the calls that *produce* the value in `local`: follow copies/moves/casts/refs backwards; stop at
